@@ -22,7 +22,8 @@ RULE = ('Single-update cases on a real broker with a stub data handler whose quo
         'neighbour on an exact half), >= 0, 0 for the zero model; cash delta on a zero-funded portfolio == '
         '-(price*qty + commission); mirrored commission identical. Non-trivial = bid != ask, rate > 0 and '
         'price*qty at least 0.01 away from a whole number and from .5.'
-        " Round-4/5 reach: the broker's fee_model attribute replaced before the fills; a third of the cases pre-load positions the orders add to, reduce, close or cross through (cash compared as a delta); a third route the orders through ExecutionHandler + MarketOrderExecutionAlgorithm at the update time.")
+        " Round-4/5 reach: the broker's fee_model attribute replaced before the fills; a third of the cases pre-load positions the orders add to, reduce, close or cross through (cash compared as a delta); a third route the orders through ExecutionHandler + MarketOrderExecutionAlgorithm at the update time."
+        " Round-10 reach: update and submission times written in Berlin / Azores time (wall clock inside exchange hours in both zones); accounts in USD, GBP or EUR.")
 ASSUMPTIONS = [
     'the stub data handler stands in for any DataHandler (the shipped one returns bid == ask)',
     'update instants at least one minute inside exchange hours (boundaries are C04\'s subject)',
@@ -56,6 +57,9 @@ def _run(case, mirror, fee_obj=None):
     q = load()
     t0 = cal.ts6(case['t_submit'])
     t1 = cal.ts6(case['t_update'])
+    if case.get('tz'):
+        # the same instants written in another time zone (one in which the wall clock is inside exchange hours too)
+        t0, t1 = t0.tz_convert(case['tz']), t1.tz_convert(case['tz'])
     table, other = {}, {}
     orders = []
     for o in case['orders']:
@@ -70,7 +74,11 @@ def _run(case, mirror, fee_obj=None):
     first_model = fee_obj if fee_obj is not None else kit.fee_model(case['fee'])
     if case.get('swap_fee'):
         first_model = q.ZeroFeeModel() if case['swap_fee'] == 'zero' else q.PercentFeeModel(commission_pct=0.031, tax_pct=0.007)
-    b = q.SimulatedBroker(t0, q.SimulatedExchange(t0), dh, initial_funds=0.0, fee_model=first_model)
+    if case.get('currency'):
+        b = q.SimulatedBroker(t0, q.SimulatedExchange(t0), dh, base_currency=case['currency'], initial_funds=0.0,
+                              fee_model=first_model)
+    else:
+        b = q.SimulatedBroker(t0, q.SimulatedExchange(t0), dh, initial_funds=0.0, fee_model=first_model)
     pids = sorted(set(o[4] for o in orders))
     log = []
     for pid in pids:
@@ -225,6 +233,10 @@ def run_case(case):
     cls.append('fee_zero_model' if case['fee'] is None else ('fee_default' if case['fee'] == 'default' else (
         'fee_rate_positive' if rate > 0 else 'fee_rate_zero')))
     cls.append('orders_%d' % len(case['orders']))
+    if case.get('tz'):
+        cls.append('update_time_in_another_zone')
+    if case.get('currency'):
+        cls.append('account_in_' + case['currency'])
     if case.get('swap_fee'):
         cls.append('fee_model_replaced_after_construction')
     if any(case.get('prior') or []):
@@ -295,7 +307,13 @@ def cases(draw):
             m = max(1, abs(o['qty']) // 2)
             prior.append({0: 0, 1: -m if o['qty'] > 0 else m, 2: -(abs(o['qty']) + 3) if o['qty'] > 0 else abs(o['qty']) + 3,
                           3: 5 if o['qty'] > 0 else -5}[k])
-    return {'second_round': draw(st.sampled_from([False, False, True])), 'retune': draw(st.sampled_from([0, 0, 1, 2, 3])), 'prior': prior, 'via_exec': draw(st.sampled_from([False, False, True])), 'swap_fee': swap, 't_submit': [t0.year, t0.month, t0.day, t0.hour, t0.minute, t0.second],
+    zones = [None, None, None]
+    if (h, mi) <= (19, 58):
+        zones.append('Europe/Berlin')            # UTC+1 on these dates
+    if (h, mi) >= (15, 31):
+        zones.append('Atlantic/Azores')          # UTC-1 on these dates
+    return {'tz': draw(st.sampled_from(zones)), 'currency': draw(st.sampled_from([None, None, 'USD', 'GBP', 'EUR'])),
+            'second_round': draw(st.sampled_from([False, False, True])), 'retune': draw(st.sampled_from([0, 0, 1, 2, 3])), 'prior': prior, 'via_exec': draw(st.sampled_from([False, False, True])), 'swap_fee': swap, 't_submit': [t0.year, t0.month, t0.day, t0.hour, t0.minute, t0.second],
             't_update': [t1.year, t1.month, t1.day, t1.hour, t1.minute, t1.second],
             'orders': orders, 'fee': fee}
 
